@@ -252,7 +252,7 @@ Section Gen.
     match type of H with (if ?c then _ else _) = _ => destruct c end; [discriminate|].
     destruct (rnd_intn _ _ _ _) as [| |v r]; try discriminate.
     destruct (search_totals _ _ _) as [g|] eqn:Es; [|discriminate].
-    apply search_in, sorter_incl in Es.
+    apply search_in, sorter_incl, filter_In in Es. destruct Es as [Es _].
     destruct (parse_subnets_from _ _ H _ Hin). exists g. repeat split; auto.
   Qed.
 
@@ -305,8 +305,9 @@ Section Gen.
   Proof.
     intros. unfold get_subnets_varint.
     destruct (varint seed) as [sv n]. destruct (n =? 0)%Z; [discriminate|].
-    fold (wsum (sorter cfg)).
-    destruct (wsum (sorter cfg) <? 1) eqn:Et; [discriminate|].
+    set (fc := filter (fun g => match nets g with None => false | Some _ => true end) cfg).
+    fold (wsum (sorter fc)).
+    destruct (wsum (sorter fc) <? 1) eqn:Et; [discriminate|].
     destruct (rnd_intn _ _ _ _) as [| |v r] eqn:Ei; try discriminate.
     - exfalso. eapply rnd_intn_no_panic; [|exact Ei]. lia.
     - apply rnd_intn_lt in Ei.
